@@ -2126,7 +2126,7 @@ impl TypeChecker {
             seen_from(old(seen)@, final(seen)@), //# C02 inner_copy.the_table_of_copies_only_grows
             copied_id(old(self).types@, final(seen)@, old_ty, r), //# C02 inner_copy.the_result_is_recorded_as_the_copy_of_the_class
             !old(seen)@.contains_key(TyID(rep0(old(self).types@, old_ty.0 as int) as usize)) ==> forall|c: Constraint| #[trigger] cons_of(old(self).types@, old_ty.0 as int).contains(c)
-                ==> exists|d: Constraint| #[trigger] cons_of(final(self).types@, r.0 as int).contains(d) && con_copy(old(self).types@, final(seen)@, c, d), //# C02,C03 inner_copy.a_fresh_copy_carries_a_copy_of_every_deferred_constraint
+                ==> exists|d: Constraint| #[trigger] cons_of(final(self).types@, r.0 as int).contains(d) && con_copy(old(self).types@, final(seen)@, c, d), //# C02,C03,C05 inner_copy.a_fresh_copy_carries_a_copy_of_every_deferred_constraint
 //@   endspec
 //@   ghost entry
         let ghost ts0 = self.types@; let ghost m0 = seen@; let ghost p0 = old_ty;
@@ -2165,7 +2165,7 @@ impl TypeChecker {
         proof {
             assert(seen_ext(mb, seen@));
             assert(con_kind(*con) == con_kind(mapped_con) && con_rest_eq(*con, mapped_con) && (con_id(*con) is Some <==> con_id(mapped_con) is Some)
-                && (con_id(*con) is Some ==> copied_id(ts0, seen@, con_id(*con)->Some_0, con_id(mapped_con)->Some_0))); //# C02,C03 inner_copy.the_copy_of_a_constraint_is_of_the_same_kind_and_about_the_copied_type
+                && (con_id(*con) is Some ==> copied_id(ts0, seen@, con_id(*con)->Some_0, con_id(mapped_con)->Some_0))); //# C02,C03,C05 inner_copy.the_copy_of_a_constraint_is_of_the_same_kind_and_about_the_copied_type
             lemma_con_copy_intro(ts0, seen@, *con, mapped_con);
             assert(new_cons@.dom().contains(mapped_con) && con_copy(ts0, seen@, *con, mapped_con));
             assert forall|j: int| 0 <= j < it.index@ implies exists|d: Constraint| #[trigger] new_cons@.dom().contains(d) && con_copy(ts0, seen@, *(#[trigger] it.seq()[j]).0, d) by {
@@ -2957,7 +2957,7 @@ impl TypeChecker {
             con_in_range(constraint, old(self).types@.len() as int), //# C02,C07 add_constraint.pre.constraint_ids_in_range
         ensures final(self).inv2(), final(self).grows(old(self)), //# C02 add_constraint.keeps_invariant
             same_partition_and_types(old(self).types@, final(self).types@), //# C02 add_constraint.only_constraints_change
-            cons_of(final(self).types@, a.0 as int) == cons_of(old(self).types@, a.0 as int).insert(constraint), //# C02 add_constraint.records_the_constraint_on_the_class
+            cons_of(final(self).types@, a.0 as int) == cons_of(old(self).types@, a.0 as int).insert(constraint), //# C02,C03,C05 add_constraint.records_the_constraint_on_the_class
             cons_of(final(self).types@, a.0 as int).contains(constraint) && cons_mono(final(self).types@, final(self).types@), // (the seed terms of the no-constraint-dropped chain for what was just recorded)
             forall|i: int| 0 <= i < old(self).types@.len() && rep0(old(self).types@, i) != rep0(old(self).types@, a.0 as int)
                 ==> #[trigger] cons_of(final(self).types@, i) == cons_of(old(self).types@, i), //# C02 add_constraint.other_classes_untouched
